@@ -613,6 +613,9 @@ class MBXML:
             f"(or smaller than -{cls.SINTVAR_MAX}"
         )
         sintvar: bytes = cls.write_uintvar(abs(value))
+        if sintvar[0] & 0x40:
+            # bit 6 of the first septet is the sign bit, such magnitude needs one more (leading) septet
+            sintvar = b"\x80" + sintvar
         return (
             sintvar
             if value >= 0 and not negative_zero
